@@ -11,7 +11,11 @@ import (
 )
 
 func strJoin(joiner, subject rel.Value) (rel.Value, error) {
-	strs, is := subject.(rel.Set)
+	var strs rel.Array
+	set, is := subject.(rel.Set)
+	if is {
+		strs, is = rel.AsArray(set)
+	}
 	if !is {
 		return nil, fmt.Errorf("//str.join: subject not an array: %v", subject)
 	}
